@@ -181,4 +181,28 @@ theorem checkObjectStates_fdt (I : ObjIface σ) (s : State σ) (l : List Nat) :
     have h2 := ih (checkObjectState I s t).1
     refine ⟨by rw [h2.1, h1.1], by rw [h2.2.1, h1.2.1], by rw [h2.2.2, h1.2.2]⟩
 
+/-! ### the FTI-conflict test at the head of `push_fdt_obj` -/
+
+theorem dropConflict_frame (s : State σ) (p : Pkt) :
+    (dropConflict s p).objects = s.objects ∧ (dropConflict s p).completed = s.completed ∧
+    (dropConflict s p).errors = s.errors ∧ (dropConflict s p).fdtCurrent = s.fdtCurrent ∧
+    (dropConflict s p).cfg = s.cfg ∧ (dropConflict s p).closedImminent = s.closedImminent ∧
+    (∀ kf ∈ (dropConflict s p).fdtReceivers, kf ∈ s.fdtReceivers) := by
+  unfold dropConflict
+  split
+  · exact ⟨rfl, rfl, rfl, rfl, rfl, rfl, fun _ h => h⟩
+  · split
+    · exact ⟨rfl, rfl, rfl, rfl, rfl, rfl, fun _ h => h⟩
+    · split
+      · exact ⟨rfl, rfl, rfl, rfl, rfl, rfl, fun _ h => mem_aerase h⟩
+      · exact ⟨rfl, rfl, rfl, rfl, rfl, rfl, fun _ h => h⟩
+
+theorem noteFti_fields (f : FdtRecv σ) (v : Option Fti) :
+    (f.noteFti v).fdtId = f.fdtId ∧ (f.noteFti v).obj = f.obj ∧ (f.noteFti v).st = f.st ∧
+    (f.noteFti v).expires = f.expires ∧ (f.noteFti v).inst = f.inst ∧ (f.noteFti v).utf8 = f.utf8 ∧
+    (f.noteFti v).offset = f.offset ∧ (f.noteFti v).late = f.late ∧ (f.noteFti v).check = f.check ∧
+    (f.noteFti v).hasMeta = f.hasMeta ∧ (f.noteFti v).bytes = f.bytes := by
+  unfold FdtRecv.noteFti
+  split <;> exact ⟨rfl, rfl, rfl, rfl, rfl, rfl, rfl, rfl, rfl, rfl, rfl⟩
+
 end Flute.Recv
